@@ -4,7 +4,9 @@
     Statements only; proofs are [exact] of lemmas in Proofs/. *)
 From Coq Require Import List Arith Bool Permutation Floats Reals.
 From ET Require Import Model.Scalar Model.Sparse Proofs.SparseBase Proofs.MergeProofs Proofs.VectorProofs
-  Proofs.RInst Proofs.F64Lemmas Generated.KbnGen Proofs.KbnGenProofs.
+  Proofs.RInst Proofs.F64Lemmas Generated.KbnGen Proofs.KbnGenProofs
+  Proofs.ScaleRound Proofs.F64Round Proofs.F64Scale Proofs.RoundNonneg Proofs.F64Nonneg.
+From Flocq Require Core.
 Import ListNotations.
 
 (** (G) Sum: equal dimensions give a well-formed result (strictly increasing,
@@ -115,6 +117,19 @@ Theorem C09_kbn_source_is_the_model :
   (forall (S : ScalarOps) (l : list S), gen_kbn_total l = kbn_total l).
 Proof. exact (conj kbn_translated_ok (conj gen_kbn_add_is_model (conj gen_kbn_sum_is_model gen_kbn_total_is_model))). Qed.
 Print Assumptions C09_kbn_source_is_the_model.
+
+(** (F, compensated sums) on the binary64 instance: for finite non-negative floats, while every
+    intermediate result stays in range ([fold_ok]: no overflow, no underflow) and for up to 2^49 terms,
+    KBNSummer returns a finite float of non-negative value: the (possibly negative) compensation term
+    never outweighs the running sum. *)
+Theorem C09_kbn_nonneg_f64 :
+  forall l : list PrimFloat.float,
+    Forall finite64 l -> Forall (fun x => (0 <= val64 x)%R) l ->
+    fold_ok (@kbn0 B64) (map val64 l) ->
+    (INR (length l) <= Flocq.Core.Raux.bpow Flocq.Core.Zaux.radix2 49)%R ->
+    finite64 (@kbn_total F64 l) /\ (0 <= val64 (@kbn_total F64 l))%R.
+Proof. exact kbn_total_nonneg_F64. Qed.
+Print Assumptions C09_kbn_nonneg_f64.
 
 (** (R) Over the reals the compensated sum is the sum, and every operation is
     the dense operation. *)
